@@ -284,7 +284,10 @@ def siptw_cell(chk, drv, df, cfg, rec):
         orders = [None] if conds is None else [list(range(len(conds))), list(range(len(conds)))[::-1]]
         for od in orders:
             pp, cc = (p, conds) if od is None else ([p[i] for i in od], [conds[i] for i in od])
-            rep, _ = drv.ask('stochw', c='f', g=fxs(g), **enc_rows_f(df, sid, wcol), **plan_kw(pp, cc, df))
+            # the op runs the definition regenerated from the text of StochasticIPTW.fit (Gen.stoch_iptw_fit); `hasw` = a
+            # weight column was given (the `if self.weights is not None` branch)
+            rep, _ = drv.ask('stochw', c='f', g=fxs(g), hasw=int(bool(wcol)), **enc_rows_f(df, sid, wcol),
+                             **plan_kw(pp, cc, df))
             chk.k(rep['status'] == 'ok' and rep['m'] != '_' and close(unfx(rep['m']), base, **TOLD),
                   'StochasticIPTW = Lean model on the reference predictions', dict(case, model=rep.get('m'), order=od))
 
@@ -588,7 +591,7 @@ def stmle_cell(chk, drv, df, cfg, rec):
         qa = np.asarray(om.predict(df))
         sid = cl['sid'] if cl else np.zeros(n, dtype=int)
         # clever covariate from the Lean model -> reference targeting fit -> epsilon
-        rep, _ = drv.ask('stochw', c='f', g=fxs(g), **enc_rows_f(df, sid), **plan_kw(p, conds, df))
+        rep, _ = drv.ask('stochw', c='f', g=fxs(g), hasw=0, **enc_rows_f(df, sid), **plan_kw(p, conds, df))
         ok = rep['status'] == 'ok' and '_' not in rep['haw'].split(',')
         if ok:
             haw = unf_opt(rep['haw'])
